@@ -370,6 +370,18 @@ def run(chk):
         return None
 
     dis, judged, crashes = chk.correspond("shape", "h_shape", [lines], stateful=False, judge=judge)
+    # the scalar_op / elementwise rules as reached through the public functions (Node and Tensor forms): the dispatch on
+    # "has no dimensions" must not depend on the batch
+    try:
+        from props import _funcs as _f
+        from vlib import lean as _lean
+        _f.table_obligation_setup(chk)
+        _lean.lake(["build", "drv_funcs"], timeout=3000)
+        progs = [_f.scalar_dispatch_program(chk.rng) for _ in range(2 if quick else 30)]
+        found, dis2 = _f.run_programs(chk, progs)
+        _f.report_found(chk, found, dis2, prop="C09", keyprefix="funcs")
+    except ImportError:
+        chk.notes.append("function-level dispatch programs not available in this tree")
     broken = chk.broken_obligations()
     # 1. property violations seen on the implementation (independent of the model)
     for j in judged:
